@@ -41,4 +41,6 @@ def sample(cls):
         return cls((L(v=1), L(v=2)))
     if cls is zoo.Mixed:
         return cls(L(v=1), (L(v=2),))
+    if cls is zoo.MixedR:
+        return cls((L(v=2),), L(v=1))
     return cls()
